@@ -8,7 +8,7 @@
 (* and whatever input arrives later is handled exactly as if the loop had   *)
 (* kept ticking through the gap.                                            *)
 (*                                                                          *)
-(* Written from the statement, not from the code.  Three judgements:        *)
+(* Written from the statement, not from the code.  Four judgements:         *)
 (*                                                                          *)
 (*  (1) a monitor over ONE behaviour of the ticking stepper (folded over    *)
 (*      recorded whole-history lanes; usable with the generic trace         *)
@@ -34,6 +34,9 @@
 (*  (3) the real processing thread against the stepper on a                 *)
 (*      time-insensitive configuration: the same OS events in the same      *)
 (*      order (LoopErr).                                                    *)
+(*                                                                          *)
+(*  (4) the tick clock of the loop never counts an interval twice           *)
+(*      (TickClockErr; the design-level counterpart is Loop!TickBudget).    *)
 (*                                                                          *)
 (* Outputs are compared by their effect on the OS key state (Obs!Eff).      *)
 (***************************************************************************)
@@ -126,9 +129,19 @@ LoopErr(r) ==
           "C07 loop-diverges: OS event #" \o ToString(i) \o " is " \o At(a, i) \o " from the stepper and " \o At(b, i)
           \o " from the processing thread (" \o ToString(Len(a)) \o " / " \o ToString(Len(b)) \o " events)"
 
+\* (4) the tick clock of the processing loop (handle_time_ticks called twice back to back on the real code,
+\* r.elapsed_us of wall clock in total since "0 ms elapsed"): time is never counted twice - the executed ticks fit
+\* into the elapsed time (no blocked wake-up is involved, which would add one tick by design)
+RECURSIVE SumSeq(_)
+SumSeq(s) == IF s = <<>> THEN 0 ELSE Head(s) + SumSeq(Tail(s))
+TickClockErr(r) ==
+  IF SumSeq(r.ticks) * 1000 <= r.elapsed_us THEN ""
+  ELSE "C07 tick-clock: " \o ToString(SumSeq(r.ticks)) \o " tick(s) executed by calls " \o ToString(r.ticks)
+       \o " although only " \o ToString(r.elapsed_us) \o " us had elapsed (an interval counted twice)"
+
 \* "" = the pair satisfies the property; otherwise the rule that is broken
 PairErr(r) ==
-  IF r.mode = "loop" THEN LoopErr(r) ELSE
+  IF r.mode = "loop" THEN LoopErr(r) ELSE IF r.mode = "tickclock" THEN TickClockErr(r) ELSE
   LET down == SeqToSet(r.down)
       ca == Canon(r.A, down, TRUE)
       cb == Canon(r.B, down, TRUE)
